@@ -55,6 +55,9 @@ Lemma b_stranded_genomic : forall keys wh ez ref ivs,
 Proof. intros; reflexivity. Qed.
 Lemma b_genes_where : gen_genes_where = where_site true.
 Proof. reflexivity. Qed.
+Lemma b_transcripts : forall keys wh ref txs,
+  model_transcripts keys wh ref txs = model_extract keys wh gen_genes_where 2 ref tx_ext tx_strand txs.
+Proof. intros; reflexivity. Qed.
 
 (* --- sequence/translate.py + kmers.py: table, base order, window, reversed 3-mer hash, length rules --- *)
 Lemma b_translate_tables :
